@@ -294,6 +294,17 @@ func c05Mutations(r *rand.Rand, b []byte, dense bool, emit func([]byte, string))
 			emit(m, "field-corrupted")
 		}
 	}
+	// a long run of continuation-style bytes after every short prefix (chains whose "more follows" bit is a byte's
+	// top bit, runs of filler): longer than any 8-bit index or length can count
+	for i := 0; i <= len(b) && i <= 16; i++ {
+		for _, v := range []byte{0x80, 0xff, 0x9c} {
+			if !dense && i > 8 && r.Intn(2) != 0 {
+				continue
+			}
+			m := append(append([]byte(nil), b[:i]...), bytes.Repeat([]byte{v}, 300)...)
+			emit(m, "long-run")
+		}
+	}
 	// two-byte fields at the top of their range (16-bit / 12-bit / 10-bit lengths: sums with a constant overflow there)
 	lim2 := len(b)
 	if !dense && lim2 > 200 {
